@@ -5,7 +5,7 @@ CONSTANTS
   RawAlphabet <- RawBytes
   RawLen = 3
   RawExtra <- RawLong
-  Dev <- AllDevs
+  Dev <- AsIsDevs
   Emit = TRUE
 INVARIANTS TypeOK TextRT_Decl Utf8Too_Decl Codecs_Decl AsciiStays FunctionForm Refines Repaired Distinct EmitInv
 CHECK_DEADLOCK FALSE
